@@ -1223,6 +1223,9 @@ fn main() {
             pub fn mark_c(app: &tauri::AppHandle, id: Uuid, name: String) {{ app.emit(\"account:named\", id).ok(); app.emit(\"account:named\", name).ok(); }}\n\
             #[derive(Serialize, Deserialize, Clone)]\npub struct Stamped {{ pub at: ext::Stamp, pub all: Vec<ext::Stamp>, pub by: HashMap<String, Option<ext::Stamp>>, pub span: Span, pub spans: Vec<Span> }}\n\
             #[derive(Serialize, Deserialize, Clone)]\npub struct Span {{ pub secs: u32 }}\n\
+            #[derive(Serialize, Deserialize, Clone)]\n#[serde(into = \"u64\", try_from = \"u64\")]\npub struct LocalStamp {{ pub secs: u64, pub zone: LocalZone }}\n#[derive(Serialize, Deserialize, Clone)]\npub struct LocalZone {{ pub offset: i32 }}\n\
+            #[derive(Serialize, Deserialize, Clone)]\npub struct Visit {{ pub at: LocalStamp, pub earlier: Vec<Option<LocalStamp>> }}\n\
+            #[tauri::command]\npub fn visits(first: LocalStamp) -> Vec<Visit> {{ vec![] }}\n\
             #[tauri::command]\npub fn stamps(s: Stamped, first: ext::Stamp, on_stamp: Channel<ext::Stamp>, on_many: Channel<Vec<Option<ext::Stamp>>>) -> Result<Vec<ext::Stamp>, String> {{ Ok(vec![]) }}\n", HDR);
         let dir = root.join("mapped/src");
         write_files(&dir, &[("lib.rs".to_string(), src)]);
@@ -1233,7 +1236,7 @@ fn main() {
             cfg.project_path = dir.to_string_lossy().to_string();
             cfg.output_path = out.to_string_lossy().to_string();
             cfg.validation_library = mode.to_string();
-            cfg.type_mappings = Some([("Uuid".to_string(), "string".to_string()), ("Timestamp".to_string(), "number".to_string()), ("ext::Stamp".to_string(), "number".to_string()), ("ext::Span".to_string(), "number".to_string())].into_iter().collect());
+            cfg.type_mappings = Some([("Uuid".to_string(), "string".to_string()), ("Timestamp".to_string(), "number".to_string()), ("ext::Stamp".to_string(), "number".to_string()), ("ext::Span".to_string(), "number".to_string()), ("LocalStamp".to_string(), "number".to_string())].into_iter().collect());
             let res: Result<BTreeMap<String, String>, String> = generate_from_config(&cfg).map_err(|e| format!("generate_from_config returned Err: {}", e)).and_then(|_| {
                 let mut m = BTreeMap::new();
                 for e in fs::read_dir(&out).map_err(|e| e.to_string())?.flatten() { if e.path().is_file() { m.insert(e.file_name().to_string_lossy().to_string(), fs::read_to_string(e.path()).unwrap_or_default()); } }
@@ -1245,7 +1248,7 @@ fn main() {
                     if !f.ends_with(".ts") { continue; }
                     for (ln, l) in text.lines().enumerate() {
                         if l.trim_start().starts_with("//") || l.trim_start().starts_with('*') || l.trim_start().starts_with("/*") { continue; }
-                        for n in ["Uuid", "Timestamp", "Stamp", "ext"] { // `Span` is a project type of its own: the path-keyed mapping ext::Span does not concern it
+                        for n in ["Uuid", "Timestamp", "Stamp", "ext", "LocalStamp", "LocalStampSchema"] { // `Span` is a project type of its own: the path-keyed mapping ext::Span does not concern it
                             let mut from = 0;
                             while let Some(p) = l[from..].find(n) {
                                 let a = from + p; let b = a + n.len();
@@ -1259,7 +1262,7 @@ fn main() {
                 }
                 Ok("ok".into())
             });
-            rep.case("type_references_resolve", &format!("project=mapped mode={}", mode), &|| references_resolve(res.as_ref().map_err(|e| e.clone())?, &["Account", "Stamped", "Span"]));
+            rep.case("type_references_resolve", &format!("project=mapped mode={}", mode), &|| references_resolve(res.as_ref().map_err(|e| e.clone())?, &["Account", "Stamped", "Span", "Visit", "LocalZone"]));
             // C18: a type the mapping does not name is rendered exactly as without the mapping
             rep.case("unmapped_types_are_rendered_as_without_the_mapping", &format!("project=mapped mode={} type Span (the table has the key ext::Span, which names another type)", mode), &|| {
                 let files = res.as_ref().map_err(|e| e.clone())?;
@@ -1290,7 +1293,8 @@ fn main() {
                 let t = files.get("types.ts").ok_or("no types.ts")?;
                 // (struct, key, text the declaration / schema of the key must be)
                 let want: Vec<(&str, &str, &str, &str)> = vec![("Stamped", "at", "number", "z.coerce.number()|z.number()"), ("Stamped", "all", "number[]", "z.array(z.coerce.number())|z.array(z.number())"),
-                    ("Stamped", "span", "Span", "SpanSchema"), ("Stamped", "spans", "Span[]", "z.array(SpanSchema)"), ("Account", "id", "string", "z.string()|z.coerce.string()")];
+                    ("Stamped", "span", "Span", "SpanSchema"), ("Stamped", "spans", "Span[]", "z.array(SpanSchema)"), ("Account", "id", "string", "z.string()|z.coerce.string()"),
+                    ("Visit", "at", "number", "z.coerce.number()|z.number()")];
                 for (sname, key, plain, zods) in want {
                     if mode == "zod" {
                         let got = zod_field(t, sname, key).ok_or(format!("UNPARSED: {}Schema.{}", sname, key))?;
